@@ -11,7 +11,7 @@ CHECK = {
     'assumptions': ['visitors do not modify the table except the erasing-visitor probe, which erases exactly the visited element (the tolerated case)',
                     'see C03'],
     'runs': [
-        {'harness': 'hash', 'mode': 'enum', 'sources': ['harness/hash.c'] + EX, 'configs': both(['dbg-asan'], ['dbg-asan', 'rel-asan'])},
+        {'harness': 'hash', 'mode': 'enum', 'sources': ['harness/hash.c'] + EX, 'configs': both(['dbg-asan'], ['dbg-asan', 'rel-asan', 'rel-plain']),},
     ],
 }
 
